@@ -32,10 +32,13 @@ def _expected(st):
   return dict(sections=secs, params=params, macros=macros)
 
 
-def _sort_key(scope, full_selector):
-  """Independent statement of the documented order: by configurable name, then innermost module, ..., then
-  innermost scope outwards; case-insensitive."""
-  return full_selector.lower().split('.')[::-1] + scope.lower().split('/')[::-1]
+def _sort_key(scope, full_selector, is_method=False):
+  """Independent statement of the documented order: by configurable name (for a method: Class.method), then innermost
+  module, ..., then innermost scope outwards; case-insensitive."""
+  parts = full_selector.lower().split('.')
+  if is_method:
+    parts = parts[:-2] + ['.'.join(parts[-2:])]
+  return parts[::-1] + scope.lower().split('/')[::-1]
 
 
 def _div(clause, expected, got, **kw):
@@ -75,7 +78,8 @@ def at_end(world, beh):
     keyed = []
     for h in heads:
       *scopes, sel = h.split('/')
-      keyed.append(_sort_key('/'.join(scopes), textobs.resolve(world, sel)))
+      full = textobs.resolve(world, sel)
+      keyed.append(_sort_key('/'.join(scopes), full, (world.desc.get(full) or {}).get('kind') == 'meth'))
     if keyed != sorted(keyed):
       return _div('grouped-alphabetically', sorted(keyed), keyed, text=text)
     lines = [l for l in text.split('\n')]
@@ -191,6 +195,7 @@ def run(tier):
               'serialised again (identical text when everything is representable, idempotent otherwise) and rebuilt in two '
               'shuffled binding orders (identical text); non-trivial = a state with at least 3 bindings')
   cc.model_check(rep, 'MC_Serialize_quick', timeout=600)
+  cc.model_check(rep, 'MC_Serialize_methods', timeout=600)
   k = 300 if tier == 'quick' else 4000
   cc.replay_behaviours(rep, 'GinCore_Sim_serialize', num=k, depth=14, nontrivial=_nontrivial, generate=k * 3, replay_fn=_replay)
   STATS['widths'] = sorted(STATS['widths'])
